@@ -532,7 +532,9 @@ func c02CheckLib(c *Case, in *c02Input, reps int, tag string) {
 }
 
 // c02CheckCLI runs the real CLI under GOMAXPROCS / delay variations and compares stdout + status.
-func c02CheckCLI(c *Case, in *c02Input, reps int, extraArgs []string) {
+func c02CheckCLI(c *Case, in *c02Input, reps int, extraArgs []string) { c02CheckCLIBin(c, in, reps, extraArgs, "") }
+
+func c02CheckCLIBin(c *Case, in *c02Input, reps int, extraArgs []string, binName string) {
 	root := mkScratch("c02cli")
 	defer os.RemoveAll(root)
 	os.MkdirAll(filepath.Join(root, ".git"), 0o755)
@@ -547,7 +549,12 @@ func c02CheckCLI(c *Case, in *c02Input, reps int, extraArgs []string) {
 		if i%2 == 1 {
 			env = append(env, fmt.Sprintf("ACTIONLINT_VERIF_DELAY=%d:%d:check.", c.R.Intn(1<<30), 3000))
 		}
-		res := runCLI(i%5 == 4, root, nil, env, args...)
+		var res CLIResult
+		if binName != "" {
+			res = runCLIBin(binName, root, nil, env, args...) // compared only with itself
+		} else {
+			res = runCLI(i%5 == 4, root, nil, env, args...)
+		}
 		s := fmt.Sprintf("exit=%d\n%s\nstderr:%s", res.Exit, res.Stdout, res.Stderr)
 		if strings.Contains(res.Stderr, "WARNING: DATA RACE") {
 			// decided by C10; compare stdout only
@@ -662,6 +669,34 @@ func runC02(r *Run) {
 		}
 		c02CheckCLI(c, in, r.Q(12, 60), nil)
 	}})
+	if _, err := os.Stat(filepath.Join(binDir(), "actionlint-go126")); err == nil && r.Thorough() {
+		// the same projects with the CLI built by the second toolchain (go1.26.8: other map
+		// implementation); each toolchain is compared only with itself
+		fams = append(fams, &Family{Name: "cli-corpus-projects-go126", N: len(projDirs), Par: 4, Do: func(c *Case) {
+			in := &c02Input{Files: map[string]string{}, Site: "project-go126:" + filepath.Base(projDirs[c.Idx])}
+			filepath.Walk(projDirs[c.Idx], func(p string, info os.FileInfo, err error) error {
+				if err != nil || info.IsDir() {
+					return nil
+				}
+				rel, _ := filepath.Rel(projDirs[c.Idx], p)
+				b, _ := os.ReadFile(p)
+				in.Files[rel] = string(b)
+				if strings.Contains(rel, "workflows/") && (strings.HasSuffix(rel, ".yaml") || strings.HasSuffix(rel, ".yml")) {
+					in.Lint = append(in.Lint, rel)
+				}
+				return nil
+			})
+			sort.Strings(in.Lint)
+			if len(in.Lint) > 0 {
+				c02CheckCLIBin(c, in, 60, nil, "actionlint-go126")
+			}
+		}})
+		fams = append(fams, &Family{Name: "cli-tie-sites-go126", N: len(probe), Par: 4, Do: func(c *Case) {
+			ins := c02TieInputs(NewRand(c.Seed, "C02", "tie-param-go126"))
+			c02CheckCLIBin(c, ins[c.Idx], 40, nil, "actionlint-go126")
+		}})
+		r.Extra("second_toolchain", "go1.26.8")
+	}
 	fams = append(fams, &Family{Name: "cli-multi-file", N: r.Q(12, 80), Par: 4, Do: func(c *Case) {
 		in := c02MultiFileProject(c.R)
 		if c.Idx%2 == 1 {
